@@ -394,7 +394,10 @@ func (r *Runtime) arrayproto_sort(call FunctionCall) Value {
 	// written back afterwards, because the comparison (a user function, or toString() of the elements)
 	// may modify the array while it is being sorted.
 	var s sortable
-	if _, ok := o.self.(reflectValueWrapper); ok {
+	// wrapped Go slices and arrays only: other wrapped Go values (maps, structs, ...) that borrow
+	// Array.prototype.sort go through the generic algorithm like any other object
+	switch o.self.(type) {
+	case *objectGoSlice, *objectGoSliceReflect, *objectGoArrayReflect:
 		s = o.self
 	}
 
